@@ -97,6 +97,9 @@ func genSession(r *h.Rand, n int, big bool) []rmsg {
 			}
 			m.desc = h.Hex(m.payload)
 			m.cid = 2
+			if r.Chance(25) {
+				m.cid = uint32(3 + r.Intn(60)) // a Set Chunk Size is what its message type says, on whatever chunk stream it travels
+			}
 			ms = append(ms, m)
 			c = int(v)
 			if c > 1<<20 {
@@ -127,10 +130,23 @@ func genSession(r *h.Rand, n int, big bool) []rmsg {
 	return ms
 }
 
+// c01Reuse: the application's Message objects, one per (chunk stream, message stream): a sender that produces a frame
+// at a time keeps its Message and only assigns the exported fields (type, timestamp, payload) before writing it
+// again. Nothing of an earlier write may stick to the object.
+var c01Reuse = map[[2]uint32]*rtmp.Message{}
+
 func writeSession(p *rtmp.Protocol, ms []rmsg) string {
 	return h.Safe(func() string {
 		for i, m := range ms {
-			if err := p.WriteMessage(rtmp.VerifNewMessage(m.cid, rtmp.MessageType(m.ty), m.sid, m.ts, m.payload)); err != nil {
+			key := [2]uint32{m.cid, m.sid}
+			msg := c01Reuse[key]
+			if msg == nil || i%3 == 2 { // every third message through a fresh object
+				msg = rtmp.VerifNewMessage(m.cid, rtmp.MessageType(m.ty), m.sid, m.ts, m.payload)
+				c01Reuse[key] = msg
+			} else {
+				msg.MessageType, msg.Timestamp, msg.Payload = rtmp.MessageType(m.ty), m.ts, m.payload
+			}
+			if err := p.WriteMessage(msg); err != nil {
 				return fmt.Sprintf("err at %d", i)
 			}
 		}
